@@ -19,6 +19,12 @@ class _Collect(TypeCase):
     def __init__(self, *a, **kw):
         super().__init__(*a, **kw)
         self.fail_tests: list[ast.expr] = []
+        self.first_message = None          # predicate on expressions: "this denotes the first message of the self-side pairing"
+
+    def is_msg(self, e, st):
+        if self.first_message is not None and not isinstance(e, ast.Name) and self.first_message(e):
+            return True
+        return super().is_msg(e, st)
 
     def exec(self, s, st):
         if isinstance(s, ast.If) and len(s.body) == 1 and isinstance(s.body[0], ast.Return) and \
@@ -54,9 +60,18 @@ def _check(ctx: Ctx) -> None:
                  and isinstance(n.iter.func, ast.Name) and n.iter.func.id == "zip"), None)
     if loop is None or not (isinstance(loop.target, ast.Tuple) and len(loop.target.elts) == 2):
         raise AnalysisError(f"{FN}: pairwise zip loop not found")
-    s_pair, o_pair = loop.target.elts[0].id, loop.target.elts[1].id
     # canonical atom renaming: self-side / other-side expressions
     nz = Normaliser()
+    if all(isinstance(e, ast.Name) for e in loop.target.elts):
+        s_pair, o_pair = loop.target.elts[0].id, loop.target.elts[1].id
+    elif all(isinstance(e, ast.Tuple) and len(e.elts) == 2 and all(isinstance(x, ast.Name) for x in e.elts) for e in loop.target.elts):
+        # `for (s_channel, s_msgs), (o_channel, o_msgs) in zip(...)`: the items unpacked in the loop header
+        s_pair, o_pair = "_self_item", "_other_item"
+        for nm_, tup in ((s_pair, loop.target.elts[0]), (o_pair, loop.target.elts[1])):
+            for k_, x in enumerate(tup.elts):
+                nz.env[x.id] = Sym.atom(f"{nm_}[{k_}]")
+    else:
+        raise AnalysisError(f"{FN}: pairwise zip loop target not recognised")
     nz.run_block([s for s in loop.body if isinstance(s, (ast.Assign, ast.AugAssign))])
     # also assignments nested in branches (value definitions like self_msg_value)
     for n in ast.walk(loop):
@@ -84,8 +99,14 @@ def _check(ctx: Ctx) -> None:
             c = nz.env.get(n.targets[0].id)
             if c is not None and c.canon() == f"{s_pair}[1][0]":
                 first_aliases.add(n.targets[0].id)
-    if not first_aliases:
-        raise AnalysisError(f"{FN}: alias of the first message of a pairing not found")
+    # ... or it is read in place (`s_msgs[0].message_type`): recognised by its normal form
+    def is_first(e):
+        try:
+            return nz.norm(e).canon() == f"{s_pair}[1][0]"
+        except Exception:
+            return False
+    if not first_aliases and not any(isinstance(x, ast.Attribute) and x.attr == "message_type" and is_first(x.value) for x in ast.walk(loop)):
+        raise AnalysisError(f"{FN}: first message of a pairing (alias or in place) not found")
 
     flags = [a for a in fi.params if a.startswith("ignore_")]
     required = {
@@ -97,6 +118,7 @@ def _check(ctx: Ctx) -> None:
     n_cmp = 0
     for T, req in required.items():
         tc = _Collect(p, fi, set(first_aliases), T)
+        tc.first_message = is_first
         tc.run_body(loop.body)
         covered: dict[str, set] = {}
         time_forms: list[tuple[int, int]] = []
@@ -194,7 +216,20 @@ def _check(ctx: Ctx) -> None:
               message="a sequence with extra trailing events would compare equal (zip stops at the shorter)", file=fi.file, node=fi.node)
 
     # EQ2 for the two type-removal flags
+    by_flags = _kinds_by_flags(fi)
     for flag, T in (("ignore_time_signature", "TIME_SIGNATURE"), ("ignore_key_signature", "KEY_SIGNATURE")):
+        if by_flags is not None:
+            # the list of compared kinds evaluated for the four settings of the two flags: T is in it exactly when its flag is off,
+            # and the flag changes nothing else
+            other = "ignore_key_signature" if flag == "ignore_time_signature" else "ignore_time_signature"
+            ok = all((T in by_flags[frozenset(on)]) == (flag not in on) for on in ((), (flag,), (other,), (flag, other))) \
+                and all(by_flags[frozenset(on)] - {T} == by_flags[frozenset(set(on) - {flag})] - {T} for on in ((flag,), (flag, other)))
+            uses_ = [n for n in walk_local(fi.node) if isinstance(n, ast.Name) and n.id == flag and isinstance(n.ctx, ast.Load)]
+            ok = ok and len(uses_) == 1
+            ctx.check(ok, "EQ2", f"{FN}: {flag} removes only {T} from the compared types", function=FN,
+                      construct=f"{flag} does more (or less) than dropping {T} events from the comparison",
+                      message=f"compared kinds by flags set: { {tuple(sorted(k)): sorted(v) for k, v in by_flags.items()} }; {len(uses_)} use(s) of the flag", file=fi.file, node=fi.node)
+            continue
         uses = [n for n in walk_local(fi.node) if isinstance(n, ast.If) and isinstance(n.test, ast.Name) and n.test.id == flag]
         ok = bool(uses)
         for u in uses:
@@ -227,6 +262,46 @@ def _check(ctx: Ctx) -> None:
         ok = all(w in passed for w in want) and pos == callee_order[:len(pos)]
         ctx.check(ok, "DELEG", "Sequence.equals passes every ignore flag in the callee's order", function=se.qualname,
                   construct="ignore flags are not passed through in order", message=f"passed {pos}, callee expects {callee_order}", file=se.file, node=c)
+
+
+def _kinds_by_flags(fi):
+    """The list of compared message kinds as a function of (ignore_time_signature, ignore_key_signature): a literal list of
+    MessageType members, then `if [not] flag: L.remove(M)` / `L.append(M)` statements at the top level.  None when the list is
+    built some other way."""
+    fn = fi.node
+    lists = [s for s in fn.body if isinstance(s, ast.Assign) and len(s.targets) == 1 and isinstance(s.targets[0], ast.Name) and isinstance(s.value, ast.List)
+             and s.value.elts and all(enum_member(e, "MessageType") for e in s.value.elts)]
+    if len(lists) != 1:
+        return None
+    L = lists[0].targets[0].id
+    out = {}
+    for on in ((), ("ignore_time_signature",), ("ignore_key_signature",), ("ignore_time_signature", "ignore_key_signature")):
+        cur = [enum_member(e, "MessageType") for e in lists[0].value.elts]
+        for s_ in fn.body:
+            if s_.lineno <= lists[0].lineno:
+                continue
+            muts = [c for c in ast.walk(s_) if isinstance(c, ast.Call) and isinstance(call_method(c)[0], ast.Name) and call_method(c)[0].id == L
+                    and call_method(c)[1] in ("append", "remove", "extend", "insert", "pop", "clear", "sort", "reverse")]
+            stores = [x for x in ast.walk(s_) if isinstance(x, ast.Name) and x.id == L and isinstance(x.ctx, (ast.Store, ast.Del))]
+            if not muts and not stores:
+                continue
+            if stores or not isinstance(s_, ast.If) or s_.orelse or len(s_.body) != 1 or len(muts) != 1 or not (isinstance(s_.body[0], ast.Expr) and s_.body[0].value is muts[0]):
+                return None
+            t, neg = s_.test, False
+            while isinstance(t, ast.UnaryOp) and isinstance(t.op, ast.Not):
+                t, neg = t.operand, not neg
+            m_ = enum_member(muts[0].args[0], "MessageType") if len(muts[0].args) == 1 else None
+            if not (isinstance(t, ast.Name) and t.id.startswith("ignore_")) or m_ is None or call_method(muts[0])[1] not in ("append", "remove"):
+                return None
+            if (t.id in on) != neg:
+                if call_method(muts[0])[1] == "append":
+                    cur.append(m_)
+                elif m_ in cur:
+                    cur.remove(m_)
+                else:
+                    return None
+        out[frozenset(on)] = set(cur)
+    return out
 
 
 def attributes_of(neutral: str) -> set[str]:
@@ -338,6 +413,9 @@ def _polarity(ctx):
     lists = [s for s in fn.body if isinstance(s, ast.Assign) and isinstance(s.value, ast.List) and s.value.elts
              and all(enum_member(e, "MessageType") for e in s.value.elts)]
     kinds = {enum_member(e, "MessageType") for s in lists for e in s.value.elts}
+    bf = _kinds_by_flags(fi)
+    if bf is not None:
+        kinds = bf[frozenset()]             # what is compared when nothing is ignored
     ctx.check(kinds == {"NOTE_ON", "NOTE_OFF", "TIME_SIGNATURE", "KEY_SIGNATURE"}, "RET", f"{FN}: compared kinds {sorted(kinds)}", function=FN,
               construct="the list of compared message kinds is not {NOTE_ON, NOTE_OFF, TIME_SIGNATURE, KEY_SIGNATURE}",
               message=f"{sorted(kinds)}", file=fi.file, node=lists[0] if lists else fn)
